@@ -196,3 +196,30 @@ var fillPool = []string{" ", " ", " ", "\t", "\n", "\r\n", "  ", " \t ", "\n\n",
 func GenFill() *rapid.Generator[[]string] {
 	return rapid.SliceOfN(rapid.SampledFrom(fillPool), 1, 9)
 }
+
+// NestInTermPosition replaces one randomly chosen term token of a printed query
+// by the tokens of a small sub-query (a leaf form or a one-operator tree), with or
+// without parentheses. This aims at positions where the grammar allows only a
+// single term - field names, range bounds, list elements, the number of ~ and ^ -
+// and at groups nested in value positions.
+func NestInTermPosition(t *rapid.T, toks []Tok) []Tok {
+	var terms []int
+	for i, tk := range toks {
+		if tk.Class == TTerm {
+			terms = append(terms, i)
+		}
+	}
+	if len(terms) == 0 {
+		return toks
+	}
+	at := rapid.SampledFrom(terms).Draw(t, "nestat")
+	c := ParseCfg
+	c.MaxDepth = 1
+	sub := Print(genNode(t, c, 0), Opts{}).Toks
+	if rapid.Bool().Draw(t, "nestparen") {
+		sub = append(append([]Tok{Sym("(")}, sub...), Sym(")"))
+	}
+	out := append([]Tok(nil), toks[:at]...)
+	out = append(out, sub...)
+	return append(out, toks[at+1:]...)
+}
